@@ -202,13 +202,13 @@ structure LogEvent where
   upstreamService : Bytes
   status : Nat
   size : Nat
-deriving Repr
+deriving DecidableEq, Repr
 
 inductive Served where
   | noRoute | denied | unauthorized | redirect | badRemote   -- answered by the proxy itself: no event is built
   | noStatus                                                  -- the handler never wrote a header (`rw.code <= 0`)
   | logged (e : LogEvent)
-deriving Repr
+deriving DecidableEq, Repr
 
 /-- `r.Header.Set(p.Config.RequestID, id())` when a request id header is configured -/
 def withRequestID (cfg : Cfg) (r : Req) (id : Bytes) : Req :=
